@@ -92,3 +92,12 @@ Proof.
   destruct (deser_response parse_custom ft v2 (h_opcode h) bd1) as [[[rr bd2]|e2] c2];
     cbn [snd cadd c_alloc c_depth]; lia.
 Qed.
+
+(* the stack predicted for any input stays below a quarter of the 2 MiB stack *)
+Lemma decode_stack decompress ft v2 cmp stream :
+  stack_bound (snd (decode decompress ft v2 cmp stream)) <= STACK_LIMIT /\ STACK_LIMIT < 2 ^ 19.
+Proof.
+  split; [|vm_compute; reflexivity].
+  unfold stack_bound, STACK_LIMIT. pose proof (decode_depth decompress ft v2 cmp stream) as D.
+  apply N.add_le_mono_l. apply N.mul_le_mono_l. exact D.
+Qed.
